@@ -194,7 +194,7 @@ func init() {
 		ID: "C04",
 		Expl: "Decides structural necessary conditions of the codec round trip in pkg/packet/bgp: (E4.decode-produces) every concrete type implementing a codec interface is allocated by some function reachable from the parse entry points, so the decoder has a row for every type a serialiser exists for; " +
 			"(E4.attr-tables) the attribute factory switch, PathAttrFlags and the RFC flag classes agree row by row; (E2d) Serialize/Len/String/MarshalJSON/… of every type that can be stored in a route do not write their receiver (re-serialising is a fixpoint only if serialising has no side effect); " +
-			"(E3.emitted-length) framing helpers derive header length and the extended-length flag from the bytes they emit, not from a stored Length; (E6.addpath-direction) decoders ask for the receive direction of ADD-PATH and serialisers for the send direction; (E3.guard-order) writer and reader of a type test the same option constants in the same order around wire-touching statements; (E3.decoded-fields) every field a decodable type's Serialize reads is filled somewhere on the decode side. (E4.case-ratchet) against a committed baseline, no switch of the code this property is anchored in has lost a named case.",
+			"(E3.emitted-length) framing helpers derive header length and the extended-length flag from the bytes they emit, not from a stored Length; (E6.addpath-direction) decoders ask for the receive direction of ADD-PATH and serialisers for the send direction; (E3.guard-order) writer and reader of a type test the same option constants in the same order around wire-touching statements; (E3.decoded-fields) every field a decodable type's Serialize reads is filled somewhere on the decode side. (E4.case-ratchet) against a committed baseline, no switch of the code this property is anchored in has lost a named case. (E6.call-ratchet) against a committed baseline, no function of that code has stopped calling (directly or through helpers) a non-trivial callee it called on the reviewed tree.",
 		Not: "Byte-level correctness of any encoder/decoder, Len()==bytes emitted, equality after a round trip and RFC well-formedness of emitted messages are value-level and not decided.",
 		Run: func(c *Ctx) {
 			c.ruleDecodeProduces("E4.decode-produces", []string{"pkg/packet/bgp"}, 200)
@@ -206,6 +206,7 @@ func init() {
 			c.ruleDecodedFields("E3.decoded-fields", []string{"pkg/packet/bgp"}, 150)
 			c.ruleOptionScanAny("E6.option-scan-any")
 			c.ruleCaseRatchet("E4.case-ratchet", []string{"pkg/packet/bgp"}, func(f string) bool { return !strings.HasSuffix(f, "validate.go") }, "baselines/switches.json", 60)
+			c.ruleCallRatchet("E6.call-ratchet", []string{"pkg/packet/bgp"}, func(f string) bool { return !strings.HasSuffix(f, "validate.go") }, "baselines/calls.json", 300)
 		},
 	})
 	register(&Check{
@@ -224,7 +225,7 @@ func init() {
 	})
 	register(&Check{
 		ID:   "C19",
-		Expl: "Decides for pkg/packet/{mrt,bmp,rtr,bfd} and pkg/zebra: (E2c) decoders never write their input buffer nor anything that retains a part of it; (E4.decode-produces) every message/TLV type with a serialiser is allocated on the decode side; (E6.split) stream splitters compare len(input) — not cap — with the very bound they slice by; (E3.guard-order) the writer and the reader of one structure test the same flag constants in the same order around their wire-touching statements and under the same protocol versions (finite version domain); (E4.mrt-rib-families) the MRT reader, Rib.Serialize and the dump writer agree on which families have AFI/SAFI-specific RIB subtypes; (E3.decoded-fields) every field a decodable type's Serialize reads is filled somewhere on the decode side. Also: (E5.loop-progress) decode loops change their loop variable on every back edge. (E5.bounds-ratchet) the same length-guard ratchet for the MRT, BMP, RTR, BFD and ZAPI decoders. (E5.errors-checked) every error returned to decode-side code by a module function is used. (E4.case-ratchet) against a committed baseline, no switch of the code this property is anchored in has lost a named case.",
+		Expl: "Decides for pkg/packet/{mrt,bmp,rtr,bfd} and pkg/zebra: (E2c) decoders never write their input buffer nor anything that retains a part of it; (E4.decode-produces) every message/TLV type with a serialiser is allocated on the decode side; (E6.split) stream splitters compare len(input) — not cap — with the very bound they slice by; (E3.guard-order) the writer and the reader of one structure test the same flag constants in the same order around their wire-touching statements and under the same protocol versions (finite version domain); (E4.mrt-rib-families) the MRT reader, Rib.Serialize and the dump writer agree on which families have AFI/SAFI-specific RIB subtypes; (E3.decoded-fields) every field a decodable type's Serialize reads is filled somewhere on the decode side. Also: (E5.loop-progress) decode loops change their loop variable on every back edge. (E5.bounds-ratchet) the same length-guard ratchet for the MRT, BMP, RTR, BFD and ZAPI decoders. (E5.errors-checked) every error returned to decode-side code by a module function is used. (E4.case-ratchet) against a committed baseline, no switch of the code this property is anchored in has lost a named case. (E6.call-ratchet) against a committed baseline, no function of that code has stopped calling (directly or through helpers) a non-trivial callee it called on the reviewed tree.",
 		Not:  "Crash-freedom and termination of the decoders, and round-trip equality, are value-level and not decided. ZAPI field symmetry is excluded (request and response bodies are directional).",
 		Run: func(c *Ctx) {
 			c.ruleInputImmutable("E2c.input", []string{"pkg/packet/mrt", "pkg/packet/bmp", "pkg/packet/rtr", "pkg/packet/bfd", "pkg/zebra"}, 60)
@@ -237,6 +238,7 @@ func init() {
 			c.ruleConstBounds("E5.bounds-ratchet", []string{"pkg/packet/mrt", "pkg/packet/bmp", "pkg/packet/rtr", "pkg/packet/bfd", "pkg/zebra"}, "baselines/bounds.json", 20)
 			c.ruleErrorsChecked("E5.errors-checked", []string{"pkg/packet/mrt", "pkg/packet/bmp", "pkg/packet/rtr", "pkg/zebra"}, errorsDiscardedReviewed, 40)
 			c.ruleCaseRatchet("E4.case-ratchet", []string{"pkg/packet/mrt", "pkg/packet/bmp", "pkg/packet/rtr", "pkg/packet/bfd", "pkg/zebra"}, nil, "baselines/switches.json", 25)
+			c.ruleCallRatchet("E6.call-ratchet", []string{"pkg/packet/mrt", "pkg/packet/bmp", "pkg/packet/rtr", "pkg/packet/bfd", "pkg/zebra"}, nil, "baselines/calls.json", 80)
 		},
 	})
 }
